@@ -1402,6 +1402,9 @@ func (st *Runtime) evaluateArgs(fnType reflect.Type, args CallArgs, pipedArg *re
 		in := fnType.In(slot)
 		var term reflect.Value
 		if args.Exprs[i].Type() == NodeUnderscore {
+			if pipedArg == nil {
+				return nil, fmt.Errorf("placeholder '_' in a call to %s, but no value is piped in", fnType)
+			}
 			term = *pipedArg
 		} else {
 			term = st.evalPrimaryExpressionGroup(args.Exprs[i])
@@ -1425,6 +1428,9 @@ func (st *Runtime) evaluateArgs(fnType reflect.Type, args CallArgs, pipedArg *re
 		for i < len(args.Exprs) {
 			var term reflect.Value
 			if args.Exprs[i].Type() == NodeUnderscore {
+				if pipedArg == nil {
+					return nil, fmt.Errorf("placeholder '_' in a call to %s, but no value is piped in", fnType)
+				}
 				term = *pipedArg
 			} else {
 				term = st.evalPrimaryExpressionGroup(args.Exprs[i])
